@@ -512,6 +512,9 @@ class RCUUtilizationContext(AbstractContext, PipelineContextTool):
             return 0
 
     def accumulate_categories(self, pid, kernel, ideal_dur, duration, fprint):
+        if fprint not in self.kernel_cat_map:
+            # no table of the compiler log belongs to this job (none found, or skipped): everything is "other"
+            self.kernel_cat_map[fprint] = RCUKernelCategoryMap()
         if kernel not in self.kernel_cat_map[fprint]:
             self.issue_warning("kernel_other")
             kernel = "other"
